@@ -3373,3 +3373,8 @@ mod dict_accessor_tests {
         assert!((got[1].1 - 110.0).abs() < 1e-9);
     }
 }
+
+// Verification hook (/verif): contract proof harnesses; compiled only by `cargo kani`.
+#[cfg(kani)]
+#[path = "/verif/kani/morsel_agg.rs"]
+mod verif_kani;
